@@ -1,18 +1,19 @@
 #!/bin/bash
 # tools/seedcheck.sh <ID> <k> [extra check ids...] : validate seeded change k of /tmp/seed_<ID>_out and run checks against it.
 ID=$1; K=$2; shift 2; EXTRA="$@"
-OUT=/tmp/seed_${ID}_out
-WT=/tmp/sv_${ID}_${K}
-DEST=/verif/seeded/${ID}_${K}
+W=${SEEDWAVE:-}
+OUT=/tmp/seed${W}_${ID}_out
+WT=/tmp/sv${W}_${ID}_${K}
+DEST=/verif/seeded/${ID}_${W:+w${W}_}${K}
 [ -f $OUT/patch_$K.diff ] || { echo "no patch"; exit 2; }
 git -C /repo worktree add --detach $WT HEAD -q || exit 9
 cd $WT
-PYTHONPATH=$WT timeout 600 /venv/bin/python $OUT/demo_$K.py > /tmp/sv_${ID}_${K}_demo0.log 2>&1; D0=$?
+PYTHONPATH=$WT timeout 600 /venv/bin/python $OUT/demo_$K.py > /tmp/sv${W}_${ID}_${K}_demo0.log 2>&1; D0=$?
 if ! git apply $OUT/patch_$K.diff; then echo "PATCH DOES NOT APPLY"; git -C /repo worktree remove --force $WT; exit 3; fi
-PYTHONPATH=$WT timeout 600 /venv/bin/python $OUT/demo_$K.py > /tmp/sv_${ID}_${K}_demo1.log 2>&1; D1=$?
+PYTHONPATH=$WT timeout 600 /venv/bin/python $OUT/demo_$K.py > /tmp/sv${W}_${ID}_${K}_demo1.log 2>&1; D1=$?
 echo "demo unchanged exit=$D0 ; with change exit=$D1"
-/venv/bin/python -m pytest -q -p no:cacheprovider --timeout=900 --continue-on-collection-errors --junitxml=/tmp/sv_${ID}_${K}.xml > /tmp/sv_${ID}_${K}_tests.log 2>&1
-TESTS=$(/venv/bin/python /verif/tools/baseline_cmp.py /tmp/sv_${ID}_${K}.xml | head -1)
+/venv/bin/python -m pytest -q -p no:cacheprovider --timeout=900 --continue-on-collection-errors --junitxml=/tmp/sv${W}_${ID}_${K}.xml > /tmp/sv${W}_${ID}_${K}_tests.log 2>&1
+TESTS=$(/venv/bin/python /verif/tools/baseline_cmp.py /tmp/sv${W}_${ID}_${K}.xml | head -1)
 echo "tests: $TESTS"
 RES=""
 for c in $ID $EXTRA; do
